@@ -424,6 +424,23 @@ class Case:
     def lin(self, e, a):
         self._emit(f"Lin {a} {e.text()}", f"LinearForm lf({e.cpp()}); out.f(lf(req(s{a})));")
 
+    # -- numerical quadrature (floating-point tiers only; the model line is the analytic form) --
+    def quad(self, n, w, a, b):
+        """integrate<n>(x -> sum_j w_j x^j, a, b); model: bilinear form with the weight as operator"""
+        we = E('SMulL', Sc('F', 0), E('Id'))
+        for j in reversed(range(len(w))):
+            we = E('Add', E('SMulL', Sc('F', w[j]), E('Pos', j)), we)
+        horner = "S(0)"
+        for c in reversed(w):
+            horner = f"({cq(c)} + x * {horner})"
+        self._emit(f"Bilin {a} {b} Id {we.text()}",
+                   "\n#ifdef VERIF_FP\n"
+                   f"std::vector<S> xs; auto wf = [&](const S &x) {{ xs.push_back(x); return {horner}; }}; "
+                   f"S r = bspline::integration::integrate<{n}>(wf, req(s{a}), req(s{b})); out.f(r); "
+                   "std::sort(xs.begin(), xs.end()); out.tag(\"ABSC\"); out.n(xs.size()); for (auto &x : xs) out.f(x);"
+                   "\n#else\nout.tag(\"SKIP\");\n#endif\n")
+        self.meta.setdefault('quad', {})[len(self.lines)] = (n, list(w), a, b)
+
     # -- generator --
     def _store_vec(self, d0, count):
         return " ".join(f"if (v.size() > {i}) {{ {self._set(d0 + i, f'v[{i}]')} }}" for i in range(count))
